@@ -814,7 +814,11 @@ pub async fn run_sequential<B: Backend>(
                 } else {
                     drop(s);
                 }
-                last_session_changed = changed;
+                // (a refresh re-runs every external-input executor the *engine* has ever run,
+                // including ones that only ran inside partial executions the engine aborted
+                // itself and that the reference never demanded: whether such a session
+                // "changes nothing" is not decidable from outside, so it counts as changing)
+                last_session_changed = changed || writes.iter().any(|w| matches!(w, Write::Refresh));
                 if std::env::var("QV_DEBUG2").is_ok() {
                     eprintln!("DEBUG2 session epoch {} changed={} writes={:?} commit={}", or.epoch, changed, writes, commit);
                 }
